@@ -3,8 +3,19 @@ irregular times, a release TABLE with times and multiplicities, output period, I
 disk, run through ladim.main.main, and described to Coq by times and values (not by steps: the step of
 every time, the bracketing frames, the interpolation and the release schedule are computed by the model).
 
-desc = {N, rev, S, p, life, fsteps[], u[], temp[], cuts[], rows[[step, mult, x, cls]], outside[...], cont, land[]}
+desc = {N, rev, S, p, life, fsteps[], u[], temp[], cuts[], rows[[step, mult, x, cls]], outside[...], cont, land[], adv}
 cont = continuous-release frequency in seconds (0 / absent: discrete release).
+adv = advection scheme of the tracker (0 / absent: EF, 1: RK2, 2: RK4; config key tracker.advection).  The model
+leaves out the clip of the Runge-Kutta stage positions and demands instead (Setup.no_clip) that no frame moves a
+particle by more than 98/100 (RK2) / 49/100 (RK4) of a cell per step: RK set-ups get the flow of the EF generator
+scaled by 1/4 (RK2) / 1/8 (RK4), and some of their particles are released close to the ends of the valid region
+so that particles still leave the grid.  EXACTNESS under RK: all stage velocities and positions are dyadic; the
+division by 6 of RK4 is exact for a spatially uniform flow with linear time interpolation (U1 + 2 U2 + 2 U3 + U4 =
+3 (u(n) + u(n + 1)) * factor) but not next to land, where the felt flow varies with the stage position: RK4
+set-ups get NO land.  Under RK2 next to land the number of significant bits of a position grows by (bits of U1 +
+bits of U2 + 3) per step (the stage position enters the interpolation weight of the second velocity): RK2 set-ups
+with land run at most 4 steps in a flow on the coarse lattice 1/4 (u and u + dU/2 multiples of 1/4, at most 9
+more bits per step), so that every position fits into a float exactly.
 land = x-cells whose whole column is land in the grid / forcing files (absent: none): the real code masks the
 u-faces next to them (the flow a particle feels is interpolated between its two u-faces), cancels every move
 onto them; no particle is released in one.
@@ -23,10 +34,36 @@ from coqbridge import fl
 
 DT, DX = si.DT, si.DX
 CFAC = [1.0, 0.5, 2.0]
+ADV = ["EF", "RK2", "RK4"]
+# Setup.no_clip: largest |u| * factor * dt/dx over all frames (the factor 1 of an unknown class included)
+NO_CLIP = {0: None, 1: 0.98, 2: 0.49}
+USCALE = {0: 1.0, 1: 0.25, 2: 0.125}
 
 
-def gen_setup(rng, rev=None, cont_mode=None, land_mode=None):
-    N = rng.randint(3, 9)
+def respects_no_clip(desc):
+    lim = NO_CLIP[int(desc.get("adv", 0))]
+    return lim is None or max(abs(x) for x in desc["u"]) * max(CFAC + [1.0]) * DT / DX <= lim
+
+
+def edge_x(rng):
+    """a release position within one cell of an end of the valid region (LO, HI), on the 1/64 lattice"""
+    k = rng.randint(1, 64)
+    return (si.LO * 64 + k) / 64 if rng.random() < 0.5 else (si.HI * 64 - k) / 64
+
+
+def gen_setup(rng, rev=None, cont_mode=None, land_mode=None, adv=None):
+    """adv: None = about 40% EF, 30% RK2, 30% RK4; 0 / 1 / 2 (or "EF" / "RK2" / "RK4") forces the scheme"""
+    if adv is None:
+        q = rng.random()
+        adv = 0 if q < 0.4 else (1 if q < 0.7 else 2)
+    elif isinstance(adv, str):
+        adv = ADV.index(adv)
+    # land is decided first: it limits the length and the flow lattice of an RK2 set-up, and RK4 set-ups get none
+    want_land = (rng.random() < 0.5) if land_mode is None else bool(land_mode)
+    if adv == 2:
+        want_land = False
+    coarse = adv == 1 and want_land
+    N = rng.randint(3, 4) if coarse else rng.randint(3, 9)
     rev = (rng.random() < 0.5) if rev is None else rev
     first = rng.choice([0, 0, -1, -3])
     last = N + rng.choice([0, 0, 1, 2])
@@ -34,17 +71,36 @@ def gen_setup(rng, rev=None, cont_mode=None, land_mode=None):
     if rng.random() < 0.25:
         inner = list(range(1, N))
     fsteps = [first] + [s for s in inner if first < s < last] + [last]
-    u = [rng.choice([0.0, 0.5, 1.0, -0.5, 1.5])]
-    for a, b in zip(fsteps[:-1], fsteps[1:]):
-        m = rng.choice([-3, -2, -1, 0, 1, 2, 3])
-        nxt = u[-1] + (b - a) * m / 4
-        if abs(nxt) > 3.0:
-            nxt = u[-1] - (b - a) * m / 4
-        u.append(nxt)
+    if coarse:
+        # u and the half-step values u + dU/2 on the lattice 1/4, |u| <= 3/4
+        u = [rng.choice([0.0, 0.25, 0.5, -0.25, 0.75])]
+        for a, b in zip(fsteps[:-1], fsteps[1:]):
+            m = rng.choice([-1, 0, 0, 1])
+            nxt = u[-1] + (b - a) * m / 2
+            if abs(nxt) > 0.75:
+                nxt = u[-1] - (b - a) * m / 2
+            if abs(nxt) > 0.75:
+                nxt = u[-1]
+            u.append(nxt)
+    else:
+        # the EF generator (increments per step multiples of 1/4, |u| <= 3), scaled for the Runge-Kutta schemes
+        sc = USCALE[adv]
+        u = [rng.choice([0.0, 0.5, 1.0, -0.5, 1.5])]
+        for a, b in zip(fsteps[:-1], fsteps[1:]):
+            m = rng.choice([-3, -2, -1, 0, 1, 2, 3])
+            nxt = u[-1] + (b - a) * m / 4
+            if abs(nxt) > 3.0:
+                nxt = u[-1] - (b - a) * m / 4
+            if adv and abs(nxt) > 3.0:  # a long gap: under no_clip the flow must stay bounded
+                nxt = u[-1]
+            u.append(nxt)
+        u = [x * sc for x in u]
     temp = [float(rng.randint(1, 30)) for _ in fsteps]
     nfiles = rng.randint(1, min(3, len(fsteps)))
     cuts = sorted(rng.sample(range(1, len(fsteps)), nfiles - 1)) if nfiles > 1 else []
     cont = 0
+    # the slow flow of the Runge-Kutta set-ups carries few particles out of the grid: release 40% of them near the ends
+    relx = lambda: edge_x(rng) if (adv and rng.random() < 0.4) else rng.randint(2 * 64, 15 * 64) / 64  # noqa: E731
     if (rng.random() < 1 / 3) if cont_mode is None else cont_mode:
         # continuous release (Release.cont_ok): frequency k * DT; the part of the table before the stop time holds a
         # few file times on the frequency grid anchored at the first one — which may lie before the start (its
@@ -57,7 +113,7 @@ def gen_setup(rng, rev=None, cont_mode=None, land_mode=None):
         while n < N:
             if n == f0 or rng.random() < 0.5:
                 for _ in range(rng.randint(1, 3)):
-                    rows.append([n, rng.choice([1, 1, 1, 2, 0]), rng.randint(2 * 64, 15 * 64) / 64, rng.randrange(3)])
+                    rows.append([n, rng.choice([1, 1, 1, 2, 0]), relx(), rng.randrange(3)])
             n += k
         if not any(r[1] > 0 for r in rows):
             rows[0][1] = 1
@@ -69,7 +125,7 @@ def gen_setup(rng, rev=None, cont_mode=None, land_mode=None):
         for n in range(N):
             if n == 0 or rng.random() < 0.45:
                 for _ in range(rng.randint(1, 3)):
-                    rows.append([n, rng.choice([1, 1, 1, 2, 0]), rng.randint(2 * 64, 15 * 64) / 64, rng.randrange(3)])
+                    rows.append([n, rng.choice([1, 1, 1, 2, 0]), relx(), rng.randrange(3)])
         if not any(r[1] > 0 for r in rows):
             rows[0][1] = 1
         # rows outside the simulated window: before the start, at / after the stop (never released)
@@ -80,10 +136,11 @@ def gen_setup(rng, rev=None, cont_mode=None, land_mode=None):
             outside.append([N + rng.randint(0, 2), 2, 6.0, 1])
     desc = {"N": N, "rev": bool(rev), "S": 50000 + 64 * rng.randint(0, 500), "p": rng.choice([1, 1, 2, 3]),
             "life": rng.choice([-1, -1, 2, 3, 5]), "fsteps": fsteps, "u": u, "temp": temp, "cuts": cuts,
-            "rows": rows, "outside": outside, "cont": cont}
+            "rows": rows, "outside": outside, "cont": cont, "adv": adv}
+    assert respects_no_clip(desc), desc
     # land: in about half of the set-ups 0-3 cells strictly inside the valid region, never a release cell
     land = []
-    if (rng.random() < 0.5) if land_mode is None else land_mode:
+    if want_land:
         used = {round(r[2]) for r in rows + outside}
         free = [i for i in range(2, 17) if i not in used]
         # mostly next to a release cell, so that particles reach the masked faces within the few steps of a run
@@ -143,7 +200,7 @@ def run(d, name, desc, phys, rev):
         si.write_forcing(d, f"f_{name}_{k:03d}.nc", [x for x, _, _ in fr], ul, tl, land=desc.get("land"))
     rf.write_release(d / f"r_{name}.rls", [[x, m, xx, 4.0, si.ZCLS[c]] for x, m, xx, c in rel])
     env = {"p": desc["p"], "life": desc["life"]}
-    conf = si.config(d, env, S, stop, f"o_{name}.nc", f"r_{name}.rls", f"f_{name}_*.nc", rev=rev)
+    conf = si.config(d, env, S, stop, f"o_{name}.nc", f"r_{name}.rls", f"f_{name}_*.nc", rev=rev, adv=ADV[int(desc.get("adv", 0))])
     conf["release"]["names"] = ["release_time", "mult", "X", "Y", "Z"]
     set_release_mode(conf, desc)
     conf["grid"] = {"module": "ladim.ROMS", "filename": str(d / f"f_{name}_000.nc")}
@@ -153,7 +210,7 @@ def run(d, name, desc, phys, rev):
 
 def enc_setup(desc, phys, rev):
     S, stop, files, rel = phys
-    ints = [S, stop, DT, 1 if rev else 0, desc["p"], int(desc.get("cont", 0))] + fl(DT / DX) + fl(si.LO) + fl(si.HI) + [desc["life"], len(CFAC)]
+    ints = [S, stop, DT, 1 if rev else 0, desc["p"], int(desc.get("cont", 0)), int(desc.get("adv", 0))] + fl(DT / DX) + fl(si.LO) + fl(si.HI) + [desc["life"], len(CFAC)]
     for c in CFAC:
         ints += fl(c)
     land = [int(i) for i in desc.get("land", [])]
@@ -249,7 +306,8 @@ def eval_restart(desc, d, numrec):
         si.write_forcing(d, f"f_{name}_{k:03d}.nc", [x for x, _, _ in fr], ul, tl, land=desc.get("land"))
     rf.write_release(d / f"r_{name}.rls", [[x, m, xx, 4.0, si.ZCLS[c]] for x, m, xx, c in rel])
     env = {"p": desc["p"], "life": desc["life"]}
-    conf = si.config(d, env, S, stop, f"o_{name}.nc", f"r_{name}.rls", f"f_{name}_*.nc", rev=rev, numrec=numrec)
+    conf = si.config(d, env, S, stop, f"o_{name}.nc", f"r_{name}.rls", f"f_{name}_*.nc", rev=rev, numrec=numrec,
+                     adv=ADV[int(desc.get("adv", 0))])
     conf["release"]["names"] = ["release_time", "mult", "X", "Y", "Z"]
     set_release_mode(conf, desc)
     conf["grid"] = {"module": "ladim.ROMS", "filename": str(d / f"f_{name}_000.nc")}
